@@ -55,12 +55,6 @@ Definition flsl_manual (x : N) : N :=
   if x =? 0 then 0 else
   snd (flsl_step 2 1 (flsl_step 12 2 (flsl_step 240 4 (flsl_step 65280 8
       (flsl_step 4294901760 16 (flsl_step 18446744069414584320 32 (x, 1))))))).
-Definition ffsl_step (mask k : N) (xi : N * N) : N * N :=
-  let (x, i) := xi in if N.land x mask =? 0 then (N.shiftr x k, i + k) else (x, i).
-Definition ffsl_manual (x : N) : N :=
-  if x =? 0 then 0 else
-  snd (ffsl_step 1 1 (ffsl_step 3 2 (ffsl_step 15 4 (ffsl_step 255 8
-      (ffsl_step 65535 16 (ffsl_step 4294967295 32 (x, 1))))))).
 
 (* ---- word macros ---- *)
 Definition wnot (w : N) : N := N.lnot w 64.                                   (* ~w *)
